@@ -1,4 +1,4 @@
-(* C14 requests: 1400..1420. *)
+(* C14 requests: 1400..1421. *)
 From Coq Require Import List ZArith Bool.
 From PV Require Import lib.Sx lib.Str lib.Result.
 From PV Require Import model.Langs spec.SpecLangs spec.SpecFindLang model.LangsMerge extract.OrCommon.
@@ -116,6 +116,14 @@ Definition dispatch7 (code : Z) (arg : sx) : option sx :=
                       | _, _, _ => bad end
                   | _ => bad end)
   | 1419 => Some (match sx_mset arg with Some cs => of_mset (merge_concurrent cs) | None => bad end)
+  | 1421 => Some (match arg with          (* [force; legacy?; set with nodes] -> [document written after merging; merged set] *)
+                  | SL [SS force; SI legacy; cs] =>
+                      match sx_mset cs with
+                      | Some cs => SL [if legacy =? 1 then of_result of_doc (legacy_merge_write force cs)
+                                       else of_doc (single_write force cs);
+                                       of_capset (flat_set (merge_concurrent cs))]
+                      | None => bad end
+                  | _ => bad end)
   | 1420 => Some (match arg with
                   | SL [cs; obs] => match sx_mset cs, sx_mset obs with
                                     | Some cs, Some obs => of_bool (ok_merge cs obs) | _, _ => bad end
